@@ -134,6 +134,14 @@ impl NetWorld {
         Ok(c)
     }
 
+    /// Connects without letting the server run (the connection sits in the accept queue).
+    pub fn connect_nosettle(&self) -> Result<NetClient, String> {
+        let s = TcpStream::connect(self.addr).map_err(|e| format!("connect: {}", e))?;
+        s.set_nonblocking(true).map_err(|e| e.to_string())?;
+        s.set_nodelay(true).map_err(|e| e.to_string())?;
+        Ok(NetClient { s: Some(s), eof: false, reset: false, got: vec![] })
+    }
+
     pub fn dump(&self) -> Vec<DumpItem> {
         self.mem
             .verif_dump()
